@@ -142,7 +142,7 @@ type c11Job struct {
 func c11(args []string) {
 	c := chk.New("C11", "fault_enumeration", args)
 	c.Build(false)
-	c.Rule("(a third of the commands carry printf-style verbs in an argument, a quarter are indented multi-line strings) histories that split an execution into several runs: RunTo(prefix) then Run; complete run, delete a downstream-closed set of outputs (with or without their audit files; the first run slow so that rewritten records are shorter), re-run; run killed at enumerated hook crash points, cleanup, resume; oracle: for every output the audit tree after the history equals the tree of an uninterrupted run of the same workflow (ids and times excluded), every embedded ancestor record is identical (ids included) to the ancestor's own .audit.json on disk, and loading every audit file through the library and writing it back loses nothing (in-process round trip in a copy of the directory); directed topologies with a directory output and with a gathering task that has an ordinary and a joined in-port (repeated, map order), with two differently tagged branches zipped by one process, and with a file that is tagged, processed and tagged again. distinct_nontrivial = distinct (workflow, history) in which >= 1 task was taken from disk and >= 1 task was executed in the last run")
+	c.Rule("(a third of the commands carry printf-style verbs or JSON-escape look-alikes (\\u0026) in an argument, a quarter are indented multi-line strings) histories that split an execution into several runs: RunTo(prefix) then Run; complete run, delete a downstream-closed set of outputs (with or without their audit files; the first run slow so that rewritten records are shorter), re-run; run killed at enumerated hook crash points, cleanup, resume; oracle: for every output the audit tree after the history equals the tree of an uninterrupted run of the same workflow (ids and times excluded), every embedded ancestor record is identical (ids included) to the ancestor's own .audit.json on disk, and loading every audit file through the library and writing it back loses nothing (in-process round trip in a copy of the directory); directed topologies with a directory output and with a gathering task that has an ordinary and a joined in-port (repeated, map order), with two differently tagged branches zipped by one process, and with a file that is tagged, processed and tagged again. distinct_nontrivial = distinct (workflow, history) in which >= 1 task was taken from disk and >= 1 task was executed in the last run")
 	c.Assume("histories whose recovery does not converge (C03's known finding: kill between the renames of a multi-file task) are not judged here", "ids and absolute times of re-executed tasks are excluded from the comparison with the uninterrupted run")
 	rng := c.Rand("c11")
 	var jobs []*c11Job
@@ -160,7 +160,7 @@ func c11(args []string) {
 			// commands as they are written in workflow code: format verbs in an argument (awk, printf, date), a command
 			// given as an indented multi-line string
 			if (g+k)%3 == 0 {
-				p.Cmd += " note=%d%s-100%"
+				p.Cmd += []string{" note=%d%s-100%", " note=q\\u0026lang\\u003cen\\u003e"}[(g+k)/3%2]
 			}
 			if (g+k)%4 == 1 {
 				p.Cmd = "\n      " + p.Cmd + "   "
